@@ -106,6 +106,8 @@ Definition audited_recursive : list string := [
   "extractJoinColumns"; "extractColumnsFromExpr"; "hashJoinAnalyze";
   (* measure: remaining selector tokens / data depth *)
   "Reader"; "SelectDimension"; "Unwind"; "MixArray"; "MixObject";
+  (* heplers.go: nesting depth of a value tuple (a finite tree built from the parsed expression / acyclic data) *)
+  "Unwrapped"; "HasWrapper";
   (* sort.go Compare: remaining order keys *)
   "Compare"
 ].
